@@ -10,7 +10,8 @@ Require Import KV.Model.Prelude KV.Model.Condensed KV.Model.Active KV.Model.Dend
   KV.Proofs.ShapeCheck KV.Proofs.ActiveRefine KV.Proofs.PrimitiveGreedy KV.Proofs.PrimitiveWF KV.Proofs.UpdateSpec
   KV.Proofs.SortProofs KV.Proofs.OrderOnly KV.Proofs.RelabelWF KV.Proofs.PrimThreshold KV.Proofs.MstPrim KV.Proofs.MstCuts
   KV.Proofs.LWInvariant KV.Model.Chain KV.Proofs.MstWF KV.Proofs.MstTotal KV.Proofs.ChainIter KV.Proofs.ChainInstances
-  KV.Model.Generic KV.Model.Primitive KV.Proofs.PrimitiveTotal KV.Proofs.GenericInv KV.Proofs.GenericInstances.
+  KV.Model.Generic KV.Model.Primitive KV.Proofs.PrimitiveTotal KV.Proofs.GenericInv KV.Proofs.GenericInstances
+  KV.Proofs.CriteriaRun KV.Proofs.SingleCuts.
 From Coq Require Import Relations.
 
 Set Implicit Arguments.
@@ -257,6 +258,66 @@ Proof.
     + left. exists s', d', m'. split; [exact Hrun|].
       exact (@PrimitiveWF.primitive_wf T (kops_of F meth) p ltb_trans ltb_irrefl meth s d m n s' d' m' Hrun).
     + right. exact Hnan.
+Qed.
+
+(* ---- C04 on the full carrier for Method::Single through nnchain, generic
+   and primitive (SingleCuts.v on the subset, transferred by order_only) ---- *)
+Lemma run_prologue_single {U} (FU : fops U) p a s d m n r :
+  a = ANnchain \/ a = AGeneric \/ a = APrimitive ->
+  run_with FU p a Single s d m n = Ok r -> exists M, prologue p m n = Ok M.
+Proof.
+  assert (Hsq : square_all (kops_of FU Single) m = m) by (unfold square_all; cbn [kops_of k_sq on_squares]; apply map_id).
+  intros [-> | [-> | ->]]; cbn [run_with]; unfold nnchain_with, generic_with, primitive_with; rewrite Hsq;
+    (destruct (prologue p m n) as [M| |]; cbn [bind]; [eexists; reflexivity|discriminate|discriminate]).
+Qed.
+
+Theorem single_cuts_carrier (p : profile) (a : algo) s d (m : list T) (n : N) s' d' m' M0 :
+  a = ANnchain \/ a = AGeneric \/ a = APrimitive ->
+  run_with F p a Single s d m n = Ok (s', d', m') ->
+  prologue p m n = Ok M0 -> 1 <= m_obs M0 ->
+  Forall (fun v => ok v = true) m ->
+  Forall (fun v => f_ltb F v (f_max F) = true) m ->
+  forall t : T, ok t = true ->
+  exists j, j <= m_obs M0 - 1 /\ cut_at KF t j (heights d')
+    /\ forall x y, x < m_obs M0 -> y < m_obs M0 ->
+        (labi (m_obs M0) (d_steps d') j x = labi (m_obs M0) (d_steps d') j y
+         <-> conn (k_ltb KF) (dcell KF M0) (seq 0 (m_obs M0)) t x y).
+Proof.
+  intros Ha Hrun HM0 Hn1 Hok Hmax t Ht.
+  destruct (lift_list Hok) as (m1 & Hm1).
+  pose proof (@order_only sub T g (fun _ => True) FS F p
+                (fun x y _ _ => eq_refl) (fun x y _ _ => eq_refl) (conj I eq_refl) (conj I eq_refl)
+                a Single m1 n (st_new sub) (d_new sub 0) s d (or_introl eq_refl)
+                ltac:(apply Forall_forall; intros; exact I)) as Hoo.
+  rewrite Hm1, Hrun in Hoo. cbn [out_of] in Hoo.
+  destruct (run_with FS p a Single (st_new sub) (d_new sub 0) m1 n) as [[[s1 d1] mm1]| |] eqn:Hrun1;
+    cbn [out_of map_out] in Hoo; try discriminate.
+  injection Hoo as Hd Hm.
+  destruct (run_prologue_single FS p (st_new sub) (d_new sub 0) m1 n Ha Hrun1) as (M1 & HM1).
+  assert (HM01 : M0 = {| m_data := map g (m_data M1); m_obs := m_obs M1 |}).
+  { unfold prologue in HM0, HM1. rewrite <- Hm1, map_length in HM0.
+    destruct (shape_check p n (N.of_nat (length m1))) as [q| |]; cbn [bind] in *; try discriminate.
+    destruct (obs_to_nat q) as [q'| |]; cbn [bind] in *; try discriminate.
+    inversion HM0; inversion HM1; subst. cbn [m_data m_obs]. reflexivity. }
+  assert (Hobs : m_obs M0 = m_obs M1) by (rewrite HM01; reflexivity).
+  assert (Hmax1 : Forall (fun v => f_ltb FS v (f_max FS) = true) m1).
+  { rewrite Forall_forall in Hmax |- *. intros v Hv. apply (Hmax (g v)). rewrite <- Hm1. apply in_map. exact Hv. }
+  assert (Hcuts : exists j, j <= m_obs M1 - 1 /\ cut_at KS (exist _ t Ht) j (heights d1)
+            /\ forall x y, x < m_obs M1 -> y < m_obs M1 ->
+                (labi (m_obs M1) (d_steps d1) j x = labi (m_obs M1) (d_steps d1) j y
+                 <-> conn (f_ltb FS) (cell_or (f_inf FS) M1) (seq 0 (m_obs M1)) (exist _ t Ht) x y)).
+  { destruct Ha as [-> | [-> | ->]]; cbn [run_with] in Hrun1.
+    - exact (@nnchain_single_cuts_all sub FS p FS_irrefl FS_trans FS_negtrans KS_eqb_nlt _ _ _ _ _ _ _ M1 Hrun1 HM1 ltac:(lia) (exist _ t Ht)).
+    - exact (@generic_single_cuts_all sub FS p FS_irrefl FS_trans FS_negtrans KS_eqb_nlt FS_eqb_refl _ _ _ _ _ _ _ M1 Hmax1 Hrun1 HM1 ltac:(lia) (exist _ t Ht)).
+    - exact (@primitive_single_cuts_all sub FS p FS_irrefl FS_trans FS_negtrans KS_eqb_nlt _ _ _ _ _ _ _ M1 Hrun1 HM1 ltac:(lia) (exist _ t Ht)). }
+  destruct Hcuts as (j & Hj & Hcut & Hpart).
+  exists j. split; [rewrite Hobs; exact Hj|]. split.
+  - rewrite Hd. unfold heights, map_dend. cbn [d_steps]. rewrite map_map.
+    change (fun x : step sub => s_dis (map_step g x)) with (fun x : step sub => g (s_dis x)).
+    rewrite <- map_map. apply (proj1 (cut_at_map (exist _ t Ht) j (map (@s_dis sub) (d_steps d1)))). exact Hcut.
+  - intros x y Hx Hy. rewrite Hd. unfold map_dend. cbn [d_steps]. rewrite !labi_map, Hobs.
+    rewrite (Hpart x y ltac:(lia) ltac:(lia)). rewrite HM01. cbn [m_obs].
+    apply (conn_map M1 (seq 0 (m_obs M1)) (exist _ t Ht) x y).
 Qed.
 
 End Sub.
